@@ -84,6 +84,13 @@ func (fs *FS) Ops() []Op {
 	return append([]Op(nil), fs.ops...)
 }
 
+// ResetLog clears the operation log (not the files).
+func (fs *FS) ResetLog() {
+	fs.mu.Lock()
+	fs.ops = nil
+	fs.mu.Unlock()
+}
+
 // Fired returns fault counts by kind.
 func (fs *FS) Fired() map[string]int {
 	fs.mu.Lock()
